@@ -70,6 +70,16 @@ let suite_hops (line : string) : string =
       let a = nn t in let b = nn t in let n = nz t in let f = nb_ t in
       let res = match M.h_withdraw_norem !w a b n f with M.Ok w' -> w := w'; "OK" | M.Err e -> err_s e in
       out := (res ^ " # " ^ dump_hworld !w) :: !out
+    end else if op = 33 then begin
+      let a = ni t in let fl = nz t in
+      let upd (old : Z.t) : Z.t = if Z.equal (big_of_z fl) Z.zero then Z.logand old (Z.lognot (Z.of_int 48)) else Z.logor old (big_of_z fl) in
+      let accts' = Stdlib.List.mapi (fun i (ac : M.hacct) -> if i = a then { ac with M.ha_flags = z_of_big (upd (big_of_z ac.M.ha_flags)) } else ac) !w.M.hw_accts in
+      w := { !w with M.hw_accts = accts' };
+      out := ("OK # " ^ dump_hworld !w) :: !out
+    end else if op = 36 then begin
+      let b = nn t in
+      let res = match M.h_close_bank_probe !w b with M.Ok _ -> "OK" | M.Err e -> err_s e in
+      out := (res ^ " # " ^ dump_hworld !w) :: !out
     end else if op = 32 then begin
       let b = nn t in let _a = ni t in
       let res = match M.h_collect_fees_foreign_ata !w b with M.Ok w' -> w := w'; "OK" | M.Err e -> err_s e in
